@@ -15,21 +15,34 @@ for f in sorted(glob.glob("/verif/seeded/*/meta.json")):
         notes = open(np).read().strip().replace("\n", " ")
     ok = (m.get("demo_with_change", {}).get("rc") not in (0, None) and m.get("demo_without_change", {}).get("rc") == 0
           and m.get("tests_with_change", {}).get("rc") == 0)
+    hist = [h for h in m.get("history", []) if h.get("caught_by") is not None]
+    first = hist[0]["caught_by"] if hist else m.get("caught_by")
+    rnd = "1" if "_r" not in m["id"] else m["id"].split("_r")[1][0]
     rows.append((m["id"], (m.get("what") or DESC.get(m["id"]) or notes)[:260], "yes" if ok else "NO: " + str(m.get("status", "not confirmed")),
-                 ", ".join(m.get("caught_by") or []) or "-", ", ".join(sorted(m.get("checks", {}))),
+                 ("yes" if first else "no") if len(hist) else "=", ", ".join(m.get("caught_by") or []) or "-", ", ".join(sorted(m.get("checks", {}))),
                  "; ".join(sorted({s for c in m.get("checks", {}).values() for s in c.get("signatures", [])}))[:160]))
 out = ["## 12. Seeded changes and the checks that catch them", "",
        "Each change was written by a fresh sub-agent that saw only the property text and its own scratch worktree. `confirmed` = "
        "I re-checked in a scratch worktree that the demonstration fails with the change and passes without it and that the "
        "existing test suite passes with it. Checks were run against the worktree (`VF_REPO`), quick tier. `caught by` lists the "
        "checks that exited 1 with a VIOLATION line.", "",
-       "| id | change / what it needs to manifest | confirmed | caught by | checks run | violation signatures |",
-       "|----|------------------------------------|-----------|-----------|------------|----------------------|"]
+       "| id | change / what it needs to manifest | confirmed | first pass | caught by (final) | checks run (last pass) | violation signatures |",
+       "|----|------------------------------------|-----------|------------|-------------------|------------------------|----------------------|"]
 for r in rows:
     out.append("| " + " | ".join(x.replace("|", "\\|") for x in r) + " |")
-caught = sum(1 for r in rows if r[3] != "-" and r[2] == "yes")
+caught = sum(1 for r in rows if r[4] != "-" and r[2] == "yes")
 valid = sum(1 for r in rows if r[2] == "yes")
-out += ["", "%d of %d confirmed changes are caught by at least one quick check." % (caught, valid), ""]
+out += ["", "%d of %d confirmed changes are caught by at least one quick check." % (caught, valid), "",
+        "`first pass`: `=` the change was evaluated once; `yes` / `no` whether the checks as they stood when the change was first "
+        "evaluated caught it (a `no` followed by a non-empty `caught by` means the check was strengthened afterwards). Per round "
+        "(confirmed changes only):", ""]
+for rnd in ("1", "2", "3"):
+    rr = [r for r in rows if (("_r" + rnd) in r[0] if rnd != "1" else "_r" not in r[0]) and r[2] == "yes"]
+    if rr:
+        fp = sum(1 for r in rr if r[3] in ("=", "yes") and r[4] != "-")
+        fin = sum(1 for r in rr if r[4] != "-")
+        out.append("* round %s: %d confirmed changes, %d caught on the first pass, %d after strengthening" % (rnd, len(rr), fp, fin))
+out.append("")
 p = "/verif/DESIGN.md"
 s = open(p).read()
 i = s.find("## 12. Seeded changes")
